@@ -64,7 +64,10 @@ def build(rule_chunk, chunk_id, with_implicit):
             message('Outer', [field('app', 1, Q('App'))]),
             message('RouteReq', [field('name', 1, 'string'), field('table', 2, 'string'), field('app', 3, Q('App')),
                                  field('outer', 4, Q('Outer')), field('class', 5, 'string'), field('payload', 6, 'string')]),
-            message('Resp', [field('ok', 1, 'bool')])]
+            message('Resp', [field('ok', 1, 'bool')]),
+            message('ListReq', [field('parent', 1, 'string'), field('page_size', 2, 'int32'), field('page_token', 3, 'string'),
+                                field('table', 4, 'string'), field('payload', 5, 'string')]),
+            message('ListResp', [field('items', 1, Q('Resp'), repeated=True), field('next_page_token', 2, 'string')])]
     meths, cells = [], []
     for i, rule in enumerate(rule_chunk):
         rpc = f'R{chunk_id}x{i}'
@@ -90,6 +93,18 @@ def build(rule_chunk, chunk_id, with_implicit):
                                   vars=routing.path_variables(uri), stream=bool(suffix), service='Implicit', no_rest=(verb == 'custom'),
                                   kwargs=(cid != 'reserved' and not suffix)))
         svcs.append(service('Implicit', im))
+        # paginated methods: every page request of one listing carries the header, not only the first
+        pm = [method('ListImplicit', Q('ListReq'), Q('ListResp'), http=('get', '/v1/{parent=shelves/*}/items')),
+              method('ListExplicit', Q('ListReq'), Q('ListResp'), http=('get', '/v1/{parent=shelves/*}/routed'),
+                     routing=[('table', '{table_id=tables/*}/**'), ('parent', '')]),
+              method('ListSig', Q('ListReq'), Q('ListResp'), http=('get', '/v1/{parent=shelves/*}/sig'), sigs=['parent'])]
+        svcs.append(service('Paged', pm))
+        for m_, vals, exp in (('ListImplicit', {'parent': 'shelves/s 1'}, {'parent': 'shelves/s 1'}),
+                              ('ListExplicit', {'parent': 'shelves/s1', 'table': 'tables/t1/x/y'},
+                               {'table_id': 'tables/t1', 'parent': 'shelves/s1'}),
+                              ('ListSig', {'parent': 'shelves/s2'}, {'parent': 'shelves/s2'})):
+            cells.append(dict(id=f'paged/{m_}', rpc=m_, py=names.py_method(m_), kind='paged', service='Paged', values=vals, expected=exp,
+                              kwargs=(m_ == 'ListSig')))
     f = file('acme/route/v1/route.proto', P, messages=msgs, services=svcs)
     req = request([f], 'transport=grpc+rest,autogen-snippets=false')
     desc.gate(req)
